@@ -5,9 +5,11 @@ import (
 	"fmt"
 	"os"
 	"os/exec"
+	"regexp"
 	"sort"
 	"strconv"
 	"strings"
+	"sync/atomic"
 	"time"
 
 	grpcgun "github.com/yandex/pandora/components/guns/grpc"
@@ -110,13 +112,70 @@ func jsonAmmoFile(entries string, omitEmpty bool) string {
 	return b.String()
 }
 
-func gunSection(kind, addr string, kv map[string]string) map[string]any {
-	g := map[string]any{"type": kind, "target": addr}
+// env is what one case shoots at: the target (the example service behind the recorder) and, with rp=1, a SEPARATE
+// reflection endpoint on another port (the gun's reflect_port option). With rp=1 the target does not serve the
+// reflection API at all (a gun that asks the target for descriptors fails its warm-up), and the reflection endpoint
+// implements the service too, behind its own recorder, so that calls sent to the wrong endpoint are seen ("stray").
+// rmd=1: the reflection API demands the metadata the gun is configured to send with reflection requests
+// (reflect_metadata); it must not appear on the calls to the target.
+type env struct {
+	target, refl *c20lib.Server
+	rmd          bool
+}
+
+var reflectMD = map[string]string{"x-refl": "secret-7", "x-refl-b": "two words"}
+
+func startEnv(kv map[string]string) (*env, error) {
+	e := &env{rmd: kv["rmd"] == "1"}
+	var need map[string]string
+	if e.rmd {
+		need = reflectMD
+	}
+	var err error
+	if kv["rp"] == "1" {
+		if e.target, err = c20lib.StartServerWith(c20lib.ServerOpts{NoReflection: true}); err != nil {
+			return nil, err
+		}
+		if e.refl, err = c20lib.StartServerWith(c20lib.ServerOpts{ReflectMD: need}); err != nil {
+			e.target.Stop()
+			return nil, err
+		}
+		return e, nil
+	}
+	e.target, err = c20lib.StartServerWith(c20lib.ServerOpts{ReflectMD: need})
+	return e, err
+}
+
+func (e *env) stop() {
+	e.target.Stop()
+	if e.refl != nil {
+		e.refl.Stop()
+	}
+}
+
+// stray: with a separate reflection endpoint, the number of service calls IT received (must be none).
+func (e *env) stray() string {
+	if e.refl == nil {
+		return ""
+	}
+	return " stray=" + strconv.Itoa(len(e.refl.Calls()))
+}
+
+func gunSection(kind string, e *env, kv map[string]string) map[string]any {
+	g := map[string]any{"type": kind, "target": e.target.Addr}
 	if t := gunTimeout(kv); t != "" {
 		g["timeout"] = t
 	}
 	if sc, _ := strconv.Atoi(kv["sc"]); sc > 0 && kind == "grpc" {
 		g["shared-client"] = map[string]any{"enabled": true, "client-number": sc}
+	}
+	if e.refl != nil {
+		_, port, _ := strings.Cut(e.refl.Addr, ":")
+		p, _ := strconv.Atoi(port)
+		g["reflect_port"] = p
+	}
+	if e.rmd {
+		g["reflect_metadata"] = reflectMD
 	}
 	return g
 }
@@ -138,39 +197,41 @@ func runJSON(kv map[string]string) string {
 	if kv["run"] == "sched" {
 		return runJSONSched(kv)
 	}
-	srv, err := c20lib.StartServer()
+	e, err := startEnv(kv)
 	if err != nil {
 		return "ENV " + c20lib.Enc(err.Error())
 	}
-	defer srv.Stop()
+	defer e.stop()
+	srv := e.target
 	n, _ := strconv.Atoi(kv["n"])
 	if n < 1 {
 		n = 1
 	}
 	file := c20lib.WriteFile(".jsonl", jsonAmmoFile(kv["e"], kv["oe"] == "1"))
-	y := poolYAML(gunSection("grpc", srv.Addr, kv),
+	y := poolYAML(gunSection("grpc", e, kv),
 		map[string]any{"type": "grpc/json", "file": file, "passes": 1},
 		map[string]any{"type": "unlimited", "duration": "120s"}, n)
 	aggr := &c20lib.Aggr{}
 	res := c20lib.RunEngine(y, aggr, 60*time.Second)
-	return fmt.Sprintf("run=%s calls=%s samples=%s", orDash(res), orDash(c20lib.SortedCalls(srv.Calls())), orDash(c20lib.SortedSamples(aggr.Samples())))
+	return fmt.Sprintf("run=%s calls=%s samples=%s", orDash(res), orDash(c20lib.SortedCalls(srv.Calls())), orDash(c20lib.SortedSamples(aggr.Samples()))) + e.stray()
 }
 
 // runJSONSched: the real grpc/json provider and n real guns (made, warmed up and bound the way the instance pool
 // does it), entry k fired by instance sched[k], one at a time by one goroutine. Observation: the trace shot by shot
 // and the number of distinct connections the calls arrived on.
 func runJSONSched(kv map[string]string) string {
-	srv, err := c20lib.StartServer()
+	e, err := startEnv(kv)
 	if err != nil {
 		return "ENV " + c20lib.Enc(err.Error())
 	}
-	defer srv.Stop()
+	defer e.stop()
+	srv := e.target
 	n, _ := strconv.Atoi(kv["n"])
 	if n < 1 {
 		n = 1
 	}
 	file := c20lib.WriteFile(".jsonl", jsonAmmoFile(kv["e"], kv["oe"] == "1"))
-	y := poolYAML(gunSection("grpc", srv.Addr, kv),
+	y := poolYAML(gunSection("grpc", e, kv),
 		map[string]any{"type": "grpc/json", "file": file, "passes": 1},
 		map[string]any{"type": "once", "times": 1}, n)
 	m, err := c20lib.NewManual(y, n)
@@ -205,7 +266,7 @@ func runJSONSched(kv map[string]string) string {
 		}
 		shots = append(shots, fmt.Sprintf("%d#%s#%s", i, orDash(strings.Join(cs, "+")), orDash(strings.Join(ss, "+"))))
 	}
-	return "t=" + strings.Join(shots, ";") + " conns=" + strconv.Itoa(c20lib.DistinctPeers(srv.Calls()))
+	return "t=" + strings.Join(shots, ";") + " conns=" + strconv.Itoa(c20lib.DistinctPeers(srv.Calls())) + e.stray()
 }
 
 func orDash(s string) string {
@@ -218,13 +279,13 @@ func orDash(s string) string {
 // ---------------------------------------------------------------- mode=table
 
 func runTable(kv map[string]string) string {
-	srv, err := c20lib.StartServer()
+	e, err := startEnv(kv)
 	if err != nil {
 		return "ENV " + c20lib.Enc(err.Error())
 	}
-	defer srv.Stop()
+	defer e.stop()
 	file := c20lib.WriteFile(".jsonl", jsonAmmoFile("t|target.TargetService.Stats||", false))
-	y := poolYAML(gunSection("grpc", srv.Addr, kv), map[string]any{"type": "grpc/json", "file": file, "passes": 1},
+	y := poolYAML(gunSection("grpc", e, kv), map[string]any{"type": "grpc/json", "file": file, "passes": 1},
 		map[string]any{"type": "once", "times": 1}, 1)
 	m, err := c20lib.NewManual(y, 1)
 	if err != nil {
@@ -253,16 +314,92 @@ func runTable(kv map[string]string) string {
 
 // ---------------------------------------------------------------- mode=scen
 
-// tmplGo turns the mini template syntax into text/template syntax for the call named callName.
-func tmplGo(s, callName string) string {
-	r := strings.NewReplacer(
-		"{U}", "{{.request."+callName+".preprocessor.u.login}}",
-		"{A}", "{{.request.auth.postprocessor.token}}",
-		"{I}", "{{.request.auth.postprocessor.userId}}",
-		"{G}", "{{.source.global.g}}",
-	)
-	return r.Replace(s)
+// tmplExpr: what a placeholder letter stands for, as a text/template expression. U A I G are variables; R S X are
+// calls of the template functions pandora registers (components/providers/scenario/templater): randInt 7 8 has one
+// possible result (7), randString 3 "z" is zzz, uuid is a random version-4 UUID (printed as UUID by canonUUID).
+func tmplExpr(letter byte, callName string) string {
+	switch letter {
+	case 'U':
+		return ".request." + callName + ".preprocessor.u.login"
+	case 'A':
+		return ".request.auth.postprocessor.token"
+	case 'I':
+		return ".request.auth.postprocessor.userId"
+	case 'G':
+		return ".source.global.g"
+	case 'R':
+		return "randInt 7 8"
+	case 'S':
+		return `randString 3 "z"`
+	case 'X':
+		return "uuid"
+	}
+	return ""
 }
+
+// tmplSpell writes the action that prints expression e in one of the ways text/template allows. All of them print
+// the same text; 2 and 9 additionally trim the white space of the literal text before / after the action.
+var defineSeq atomic.Int64
+
+func tmplSpell(e string, spelling byte) string {
+	switch spelling {
+	case '1':
+		return "{{ " + e + " }}"
+	case '2':
+		return "{{- " + e + "}}"
+	case '3':
+		return "{{print (" + e + ")}}"
+	case '4':
+		return "{{" + e + ` | printf "%v"}}`
+	case '5':
+		// a name may be defined once per template text
+		t := strconv.Quote("t" + strconv.FormatInt(defineSeq.Add(1), 10))
+		return `{{define ` + t + `}}{{` + e + `}}{{end}}{{template ` + t + ` .}}`
+	case '6':
+		return "{{if true}}{{print (" + e + ")}}{{else}}never{{end}}"
+	case '7':
+		return "{{$v := " + e + "}}{{$v}}"
+	case '8':
+		return "{{/* a comment */}}{{(" + e + ")}}"
+	case '9':
+		return "{{" + e + " -}}"
+	}
+	return "{{" + e + "}}"
+}
+
+// tmplGo turns the mini template syntax into text/template syntax for the call named callName: {L} or {Ld} with L a
+// placeholder letter and d a spelling digit.
+func tmplGo(s, callName string) string {
+	var b strings.Builder
+	for i := 0; i < len(s); i++ {
+		if s[i] == '{' && i+2 < len(s) {
+			if ex := tmplExpr(s[i+1], callName); ex != "" {
+				if s[i+2] == '}' {
+					b.WriteString(tmplSpell(ex, '0'))
+					i += 2
+					continue
+				}
+				if i+3 < len(s) && s[i+2] >= '0' && s[i+2] <= '9' && s[i+3] == '}' {
+					b.WriteString(tmplSpell(ex, s[i+2]))
+					i += 3
+					continue
+				}
+			}
+		}
+		b.WriteByte(s[i])
+	}
+	return b.String()
+}
+
+var (
+	spelledRe = regexp.MustCompile(`\{[UAIGRSX][0-9]\}`)
+	funcRe    = regexp.MustCompile(`\{[RSX][0-9]?\}`)
+)
+
+var uuidRe = regexp.MustCompile(`[0-9a-f]{8}-[0-9a-f]{4}-4[0-9a-f]{3}-[89ab][0-9a-f]{3}-[0-9a-f]{12}`)
+
+// canonUUID prints every version-4 UUID as UUID (the only random text a template can produce here).
+func canonUUID(s string) string { return uuidRe.ReplaceAllString(s, "UUID") }
 
 func scenAmmoFile(kv map[string]string) string {
 	usersCSV := "login,pass\n"
@@ -331,21 +468,22 @@ func scenAmmoFile(kv map[string]string) string {
 	return c20lib.WriteFile(".yaml", string(b))
 }
 
-func scenPool(kv map[string]string, addr string, rps map[string]any, n int) string {
-	return poolYAML(gunSection("grpc/scenario", addr, kv), map[string]any{"type": "grpc/scenario", "file": scenAmmoFile(kv)}, rps, n)
+func scenPool(kv map[string]string, e *env, rps map[string]any, n int) string {
+	return poolYAML(gunSection("grpc/scenario", e, kv), map[string]any{"type": "grpc/scenario", "file": scenAmmoFile(kv)}, rps, n)
 }
 
 func runScenSched(kv map[string]string) string {
-	srv, err := c20lib.StartServer()
+	e, err := startEnv(kv)
 	if err != nil {
 		return "ENV " + c20lib.Enc(err.Error())
 	}
-	defer srv.Stop()
+	defer e.stop()
+	srv := e.target
 	n, _ := strconv.Atoi(kv["n"])
 	if n < 1 {
 		n = 1
 	}
-	m, err := c20lib.NewManual(scenPool(kv, srv.Addr, map[string]any{"type": "once", "times": 1}, n), n)
+	m, err := c20lib.NewManual(scenPool(kv, e, map[string]any{"type": "once", "times": 1}, n), n)
 	if err != nil {
 		return "setup=" + c20lib.Enc(c20lib.Trunc(err.Error(), 160))
 	}
@@ -377,23 +515,31 @@ func runScenSched(kv map[string]string) string {
 		}
 		shots = append(shots, fmt.Sprintf("%d#%s#%s", i, orDash(strings.Join(cs, "+")), orDash(strings.Join(ss, "+"))))
 	}
-	return "t=" + strings.Join(shots, ";")
+	return canonUUID("t="+strings.Join(shots, ";")) + e.stray()
 }
 
 func runScenEngineInProc(kv map[string]string) string {
-	srv, err := c20lib.StartServer()
+	e, err := startEnv(kv)
 	if err != nil {
 		return "ENV " + c20lib.Enc(err.Error())
 	}
-	defer srv.Stop()
+	defer e.stop()
+	srv := e.target
 	n, _ := strconv.Atoi(kv["n"])
 	if n < 1 {
 		n = 1
 	}
 	k, _ := strconv.Atoi(kv["shots"])
 	aggr := &c20lib.Aggr{}
-	res := c20lib.RunEngine(scenPool(kv, srv.Addr, map[string]any{"type": "once", "times": k}, n), aggr, 60*time.Second)
-	return fmt.Sprintf("run=%s calls=%s samples=%s", orDash(res), orDash(c20lib.SortedCalls(srv.Calls())), orDash(c20lib.SortedSamples(aggr.Samples())))
+	res := c20lib.RunEngine(scenPool(kv, e, map[string]any{"type": "once", "times": k}, n), aggr, 60*time.Second)
+	// the texts are sorted after the random identifiers were replaced
+	cs := srv.Calls()
+	texts := make([]string, len(cs))
+	for i, c := range cs {
+		texts[i] = canonUUID(c20lib.CallText(c))
+	}
+	sort.Strings(texts)
+	return fmt.Sprintf("run=%s calls=%s samples=%s", orDash(res), orDash(strings.Join(texts, "+")), orDash(c20lib.SortedSamples(aggr.Samples()))) + e.stray()
 }
 
 // ---------------------------------------------------------------- child process (fatal runtime errors)
@@ -468,6 +614,12 @@ func class(input, obs string) string {
 		return ""
 	}
 	c := kv["mode"]
+	if kv["rp"] == "1" {
+		c += "/reflect-port"
+	}
+	if kv["rmd"] == "1" {
+		c += "/reflect-md"
+	}
 	switch kv["mode"] {
 	case "json":
 		if kv["run"] == "sched" {
@@ -491,8 +643,17 @@ func class(input, obs string) string {
 		if strings.Contains(kv["scns"], "sleep") {
 			c += "/sleeps"
 		}
-		if strings.Contains(kv["calls"], "{U}") || strings.Contains(kv["calls"], "{A}") {
+		if strings.Contains(kv["calls"], "{U") || strings.Contains(kv["calls"], "{A") {
 			c += "/templated-md"
+		}
+		if strings.Contains(obs, "%3Cno~value%3E") || strings.Contains(obs, "%3Cnil%3E") {
+			c += "/missing-variable"
+		}
+		if spelledRe.MatchString(kv["calls"]) {
+			c += "/spelled"
+		}
+		if funcRe.MatchString(kv["calls"]) {
+			c += "/template-funcs"
 		}
 	}
 	return c
